@@ -148,7 +148,7 @@ impl<const N: usize> Block<N> {
 // exactly once and never be looked at after its drop (C16).
 
 pub mod track {
-    pub const MAXID: usize = 20;
+    pub const MAXID: usize = 24;
     pub static mut NEXT: usize = 1;
     /// 7 = unused, 1 = live, 2 = dropped
     pub static mut ST: [u8; MAXID] = [7; MAXID];
@@ -200,19 +200,21 @@ pub mod track {
         }
     }
 
-    /// every element created so far has been dropped exactly once
+    /// every element created so far has been dropped exactly once (unrolled: no loop, so the
+    /// table size does not dictate the harness' unwind bound)
     pub fn assert_all_dropped() {
-        unsafe {
-            let mut i = 1;
-            while i < MAXID {
-                if i < NEXT {
-                    assert!(ST[i] == 2, "c16: element leaked (never dropped)");
-                } else {
-                    assert!(ST[i] == 7);
+        macro_rules! chk {
+            ($($i:literal)*) => { $(
+                unsafe {
+                    if $i < NEXT {
+                        assert!(ST[$i] == 2, "c16: element leaked (never dropped)");
+                    } else {
+                        assert!(ST[$i] == 7);
+                    }
                 }
-                i += 1;
-            }
+            )* };
         }
+        chk!(1 2 3 4 5 6 7 8 9 10 11 12 13 14 15 16 17 18 19 20 21 22 23);
     }
 
     pub fn is_live(id: u8) -> bool {
